@@ -49,6 +49,11 @@ class Item:
         return self.src[self.start:self.toks[self.h0].start]
 
     @property
+    def attr_code(self):
+        """attributes only (doc comments and comments excluded)"""
+        return ''.join(t.text for t in self.toks[self.a0:self.h0] if t.kind not in ('doc', 'lcomment', 'bcomment'))
+
+    @property
     def has_body(self):
         return self.toks[self.h1].text == '{'
 
@@ -220,7 +225,7 @@ def find_all(root, file, path):
         nxt = []
         for (lo, hi, parent) in ranges:
             for it in iter_items(s.file, s.src, s.toks, lo, hi, parent):
-                if not cfg_enabled(it.attrs):
+                if not cfg_enabled(it.attr_code):
                     continue
                 if _matches(it, elem):
                     nxt.append(it)
@@ -250,7 +255,7 @@ def list_fns(root, file):
 
     def walk(lo, hi, parent, prefix):
         for it in iter_items(s.file, s.src, s.toks, lo, hi, parent):
-            if not cfg_enabled(it.attrs):
+            if not cfg_enabled(it.attr_code):
                 continue
             k = it.kind()
             hdr = ' '.join(strip_vis(it.header).split())
